@@ -611,7 +611,7 @@ class X12Writer(X12Base):
         @type seg_data: L{segment<segment.Segment>}
         """
         icvn = seg_data.get_value('ISA12')
-        if icvn == '00501':
+        if icvn == '00501' and self.repetition_term is not None:
             seg_data.set('ISA11', self.repetition_term)
         seg_data.set('ISA16', self.subele_term)
         out = seg_data.format(
